@@ -79,6 +79,8 @@ def gen_cases(seed, tier, n):
                 rk["events"] = evs + extra
         if i % 8 == 6:
             fw.set_quarter_us(c)           # quarter-microsecond resolution (framework.resolution)
+        if i % 7 == 3:
+            tracegen.add_second_process(c, random.Random(seed * 15485863 + i))     # two processes, same thread id
         out.append(c)
     return out
 
